@@ -13,6 +13,14 @@ NOTE_R = ("Mode R = IEEE specials over exact reals (no rounding/overflow/signed 
           "with instance axioms. Trusted: z3, the shim's model of NumPy element semantics, the oracles in /verif/spec and the harness. ")
 
 CHECKS = {
+    "C19": dict(
+        text="Bounded symbolic verification: for each of 10 engine skeletons the presence of every operator and defuzzifier is a symbolic "
+             "boolean chosen at construction (every subset of missing components is a path) and all inputs are symbolic finite reals; the "
+             "real Engine.is_ready(errors) and Engine.process run; on every path where is_ready reports no errors no path of process may "
+             "raise for any finite input, and on every path where a needed component (by the statement's predicate, computed from the "
+             "skeleton) is absent, errors must be non-empty and name it.",
+        note=NOTE_R + "Skeleton family bounded (10); engines without activation method or with design errors is_ready does not inspect are outside.",
+        ref="DESIGN.md §2 C19"),
     "C02": dict(
         text="Bounded symbolic verification: engines of registered components (Mamdani with every integral defuzzifier, Takagi-Sugeno with "
              "Constant/Linear/Function terms, Tsukamoto, hedged consequents, two blocks with an output variable in an antecedent) are "
